@@ -22,7 +22,7 @@ VENV_PY = os.environ.get("MOKAPOT_PY", "/venv/bin/python")
 
 from .engine import Exec, Stale, Unsupported, find_function, strip_for_hash  # noqa: E402
 from .lib import LIB  # noqa: E402
-from . import libnp, libstr  # noqa: E402,F401  (register the assumed library contracts)
+from . import libnp, libstr, libio  # noqa: E402,F401  (register the assumed library contracts)
 from . import solve  # noqa: E402
 from .spec import Contract  # noqa: E402
 
@@ -262,7 +262,10 @@ def verify_contracts(run, contracts, registry, mutate=None, collect=True):
             for (nm, _), stt in zip(ex.canaries, outs):
                 run.canaries["checked"] += 1
                 if stt == "unsat":
-                    run.canaries["vacuous"].append("%s:%s" % (c.target, nm))
+                    if "requires-satisfiable" in nm:
+                        run.canaries["vacuous"].append("%s:%s" % (c.target, nm))
+                    else:   # an infeasible path (dead combination of branches) is not an error, but is reported
+                        run.canaries.setdefault("infeasible_paths", []).append("%s:%s" % (c.target, nm))
     return failed
 
 
@@ -299,6 +302,8 @@ def triage(run, failed, known, mods):
         except Exception as e:
             rec["model_error"] = repr(e)
         confirmed = False
+        if model:
+            rec["solver_model"] = model.get("values")
         if model and c.replay:
             rec["inputs"] = model["values"]
             json.dump(rec, open(rpath, "w"), indent=1, default=str)
